@@ -23,7 +23,7 @@ from vf import core
 PROPERTY = 'C12'
 RULE = ('exhaustive catalogue: allow in {all, remote, local, sandbox, none} x main source kind in {path, '
         'file URL, text + base_url, open binary file} x mechanism in {include, import, redefine, override, '
-        'instance location hint, locations= argument, uri_mapper, schema-less package API (schema found through the hint)} x 22 (target, spelling) pairs (inside the '
+        'instance location hint, locations= argument, uri_mapper, schema-less package API (schema found through the hint)} x 30 (target, spelling) pairs (inside the '
         'sandbox, in a sub-directory, outside, a sibling directory sharing the sandbox name as prefix, a '
         'remote URL served by a stub opener; relative, dotted, absolute, file URL, percent-encoded), XSD 1.0 '
         'and 1.1. Non-trivial: the target lies outside the allowed class, or inside it under a non-canonical '
@@ -37,7 +37,7 @@ ASSUMPTIONS = [
 XS = 'http://www.w3.org/2001/XMLSchema'
 ALLOW = ['all', 'remote', 'local', 'sandbox', 'none']
 SOURCE_KINDS = ['path', 'file_url', 'text_base_url', 'open_file']
-MECHS = ['include', 'import', 'redefine', 'override', 'hint', 'locations', 'uri_mapper', 'schemaless']
+MECHS = ['include', 'import', 'redefine', 'override', 'hint', 'locations', 'uri_mapper', 'schemaless', 'locations_late']
 
 _EVENTS = None
 _ROOT = None
@@ -142,6 +142,11 @@ class Tree:
             ('out', 'double_percent_dots', '%252e%252e/out/' + n('out')),
             ('out', 'half_double_percent', '.%252E/out/' + n('out')),
             ('out', 'double_percent_abs', 'file://' + os.path.join(self.sand, '%252e%252e', 'out', n('out'))),
+            ('out', 'file_url_dotted', 'file://' + os.path.join(self.sand, '..', 'out', n('out'))),
+            ('out', 'file_url_via_sub', 'file://' + os.path.join(self.sand, 'sub', '..', '..', 'out', n('out'))),
+            ('out', 'abs_path_dotted', os.path.join(self.sand, '..', 'out', n('out'))),
+            ('in', 'file_url_dotted', 'file://' + os.path.join(self.sand, 'sub', '..', n('in'))),
+            ('evil', 'file_url_dotted', 'file://' + os.path.join(self.sand, '..', 'sand_evil', n('evil'))),
             ('evil', 'relative', '../sand_evil/' + n('evil')),
             ('evil', 'absolute', T['evil']),
             ('evil', 'file_url', 'file://' + T['evil']),
@@ -180,7 +185,7 @@ def main_schema(mech, loc, ver):
         stmt = '<xs:import namespace="urn:o"/>'
     elif mech == 'uri_mapper':
         stmt = '<xs:include schemaLocation="mapped.xsd"/>'
-    if mech == 'hint':
+    if mech in ('hint', 'locations_late'):
         # hints are honoured on non-root elements: r holds one strictly processed foreign child
         return ('<xs:schema xmlns:xs="%s"><xs:element name="r"><xs:complexType><xs:sequence>'
                 '<xs:any namespace="##other" processContents="strict"/></xs:sequence></xs:complexType>'
@@ -197,7 +202,9 @@ def run_row(tree, ver, allow, skind, mech, target, spname, loc):
     with open(main_path, 'w') as f:
         f.write(text)
     kw = dict(allow=allow, opener=tree.opener)
-    if mech == 'locations':
+    if mech in ('locations', 'locations_late'):
+        # locations_late: nothing imports urn:o at build time; the namespace is loaded from the locations map when a
+        # strictly processed element of that namespace is met during validation
         kw['locations'] = {'urn:o': loc}
     if mech == 'uri_mapper':
         kw['uri_mapper'] = {'mapped.xsd': loc}
@@ -207,6 +214,9 @@ def run_row(tree, ver, allow, skind, mech, target, spname, loc):
         with open(docp, 'w') as f:
             f.write('<r xmlns:xsi="http://www.w3.org/2001/XMLSchema-instance"><o:marker_%s xmlns:o="urn:o" '
                     'xsi:schemaLocation="urn:o %s">x</o:marker_%s></r>' % (target, loc, target))
+    if mech == 'locations_late':
+        with open(docp, 'w') as f:
+            f.write('<r><o:marker_%s xmlns:o="urn:o">x</o:marker_%s></r>' % (target, target))
     if mech == 'schemaless':
         # no schema argument: the package-level API finds the schema through the location hint of the document
         doc2 = os.path.join(tree.sand, 'doc.xml')
@@ -255,6 +265,12 @@ def run_row(tree, ver, allow, skind, mech, target, spname, loc):
             fobj = src = open(main_path, 'rb')
         try:
             s = cls(src, **kw)
+            if mech == 'locations_late':
+                try:
+                    v = s.is_valid(docp)
+                    outcome = 'built+valid' if v else 'built+invalid'
+                except xmlschema.XMLSchemaException as e:
+                    outcome = 'validate:' + type(e).__name__
             if mech == 'hint':
                 try:
                     v = s.is_valid(docp, use_location_hints=True)
@@ -334,7 +350,7 @@ def judge(tree, ver, allow, skind, mech, target, spname, loc, st):
     if not ok_target and ('marker_' + target) in markers:
         out.append(rec('denied_location_influences_schema', 'marker_%s absent' % target, markers))
     # 3. the main source itself
-    if mech in ('hint', 'schemaless') and not ok_target and outcome == 'built+valid':
+    if mech in ('hint', 'schemaless', 'locations_late') and not ok_target and outcome == 'built+valid':
         out.append(rec('denied_location_influences_verdict', 'document invalid (strict wildcard, no declaration)',
                        outcome))
     if main_is_url and not allowed(allow, 'main') and outcome.startswith('built'):
@@ -353,10 +369,10 @@ def rows(tree):
         for mech in MECHS:
             if mech == 'override' and ver == '10':
                 continue
-            sp, _ = tree.spellings('imp' if mech in ('import', 'hint', 'locations', 'schemaless') else 'inc')
+            sp, _ = tree.spellings('imp' if mech in ('import', 'hint', 'locations', 'schemaless', 'locations_late') else 'inc')
             for allow, skind in itertools.product(ALLOW, SOURCE_KINDS):
                 for target, spname, loc in sp:
-                    if mech in ('locations', 'uri_mapper') and not (
+                    if mech in ('locations', 'uri_mapper', 'locations_late') and not (
                             os.path.isabs(loc) or '://' in loc):
                         # relative entries of locations/uri_mapper resolve against the process cwd,
                         # not the schema: only absolute spellings are meaningful here
